@@ -801,6 +801,72 @@ def run(ctx):
             ctx.ok("C13-R2", "chain inputs: even order x + x[-1] and x - x[-1]; odd order x and x - x[-2]", b.loc())
         else:
             ctx.fail("C13-R2", b.path, "chain inputs", "the inputs of the two chains are %s, expected even: (x + x1, x - x1), odd: (x, x - x2)" % ins, b.loc())
+        # the chains are driven by a unit impulse and start at rest: x = 1 for k == 0 and 0 otherwise,
+        # every delay vector is allocated as zeros, and a[k-1] is written for k >= 1 only (sweep
+        # survivors: `else { 1.0 }`, `vec![1.0; ..]`, `if k >= 0`)
+        def _k_test(g):
+            """(holds_for_k_equal_0, holds_only_for_k_ge_1) of a guard on the output loop variable"""
+            if g[0] not in ("true", "false"):
+                return None
+            pos, c = paths.bool_atoms(g)
+            if c[0] != "bin" or c[3][0] != "c" or not isinstance(c[3][1], int) or isinstance(c[3][1], bool):
+                return None
+            kv = _single_lv(syms.poly(c[2]))
+            if kv is None or syms.poly(c[2]) != syms.lv(kv) or syms.info[kv]["end"] != frozenset([M + one]):
+                return None
+            op, n = c[1], c[3][1]
+            sat = lambda k_: {"Eq": k_ == n, "Ne": k_ != n, "Gt": k_ > n, "Ge": k_ >= n, "Lt": k_ < n, "Le": k_ <= n}[op] == pos
+            return sat
+        xin = ins_e.get((1, "odd"))
+        if xin is not None and xin[0][0] == "var" and isinstance(xin[0][1], int):
+            okx = True
+            nd = 0
+            for dbb, didx, ditem in b.defs().get(xin[0][1], []):
+                if b.is_cleanup(dbb) or didx == "term":
+                    continue
+                dv = eb.at(dbb, didx).rvalue(ditem["rv"])
+                tests = [t_ for t_ in (_k_test(g) for g in paths.guards(b, dbb, eb)) if t_ is not None]
+                nd += 1
+                try:
+                    cv = float(dv[1]) if dv[0] == "c" else None
+                except (TypeError, ValueError):
+                    cv = None
+                if cv is None or not tests:
+                    okx = False
+                    continue
+                at0 = all(t_(0) for t_ in tests)
+                later = all(t_(1) for t_ in tests) or all(t_(2) for t_ in tests)
+                if at0 and not later and cv == 1.0:
+                    continue
+                if later and not at0 and cv == 0.0:
+                    continue
+                okx = False
+            if okx and nd == 2:
+                ctx.ok("C13-R2", "the chains are driven by a unit impulse: x = 1 for k == 0, 0 afterwards", b.loc())
+            else:
+                ctx.fail("C13-R2", b.path, "impulse input", "the input of the section chains is not the unit impulse (1 for k == 0, 0 otherwise): the coefficients of A(z) are its impulse response", b.loc())
+        nz = []
+        for bb_, t_ in b.calls():
+            c_ = t_["callee"]
+            if c_["k"] == "fndef" and cm.callee_name(c_).endswith("from_elem") and len(t_["args"]) == 2:
+                a0_ = eb.at(bb_).op(t_["args"][0])
+                if a0_[0] == "c":
+                    try:
+                        if float(a0_[1]) != 0.0:
+                            nz.append(cm.loc_of(t_["span"]))
+                    except (TypeError, ValueError):
+                        pass
+        if nz:
+            ctx.fail("C13-R2", b.path, "initial state", "a delay / coefficient vector of lsp2lpc is allocated with a non-zero fill (%s): the section chains have to start at rest" % ", ".join(nz), b.loc())
+        else:
+            ctx.ok("C13-R2", "every vector of lsp2lpc is allocated as zeros (the chains start at rest)", b.loc())
+        if got.get("out"):
+            obb = got["out"][0]
+            tests = [t_ for t_ in (_k_test(g) for g in paths.guards(b, obb, eb)) if t_ is not None]
+            if tests and not all(t_(0) for t_ in tests) and all(t_(1) for t_ in tests) and all(t_(5) for t_ in tests):
+                ctx.ok("C13-R2", "a[k-1] is written for k >= 1 only", b.loc())
+            else:
+                ctx.fail("C13-R2", b.path, "output guard", "the store a[k-1] is not restricted to k >= 1: for k = 0 the index k - 1 wraps (a panic in a checked build)", b.loc())
         # what the two delayed inputs hold: x1 <- x after its last use of the iteration, and (odd
         # order) x2 <- x1 *before* that, so that x2 is the input of two samples ago
         def _var_of(e):
